@@ -2,6 +2,7 @@ import ProbLogModel.Sem
 import ProbLogProofs.Lemmas.SemWorlds
 import ProbLogProofs.Lemmas.SemGamma
 import ProbLogProofs.Lemmas.SemRules
+import ProbLogProofs.Lemmas.SemDefinite
 /-!
 # C01 — theorems about the *specification* `Sem` itself (the reference the C01/C02/C07/C08 checks execute)
 
@@ -10,7 +11,7 @@ distribution semantics: the total choices form a probability distribution, `gamm
 and for definite programs `wfm` is two-valued and equal to that least model.
 -/
 namespace ProbLogProofs.C01
-open ProbLogModel.Sem ProbLogProofs ProbLogProofs.SemGamma ProbLogProofs.SemRules
+open ProbLogModel.Sem ProbLogProofs ProbLogProofs.SemGamma ProbLogProofs.SemRules ProbLogProofs.SemDefinite
 
 /-- The weights of the total choices of any list of groups sum to 1 (no hypothesis on the probabilities:
     the "none of the alternatives" remainder `1 - Σ p` makes each group's factor telescope to 1). -/
@@ -86,5 +87,30 @@ example : (relevantAtoms [⟨0, [1], [2], none⟩, ⟨3, [0], [], none⟩] 4 [0]
   decide
 example : Reach 4 [⟨0, [1], [2], none⟩, ⟨3, [0], [], none⟩] [0] 2 :=
   .step (r := ⟨0, [1], [2], none⟩) (.root (by decide) (by decide)) (by decide) (by decide) (by decide)
+
+/-! ## definite programs -/
+
+/-- For a definite program (no negative body atom anywhere) the well-founded model is two-valued (`T = U`) and both
+    components are `gamma` (whose context is then irrelevant), i.e. the least model:
+    closed under the rules (heads `< natoms`) and below every closed set. -/
+theorem C01_wfm_two_valued_definite (rules : List Rule) (chosen : Array Bool) (natoms : Nat)
+    (hdef : definite rules = true) :
+    (wfm rules chosen natoms).1 = (wfm rules chosen natoms).2 ∧
+    (∀ ctx, (wfm rules chosen natoms).1 = gamma rules chosen natoms ctx) ∧
+    (wfHeads natoms rules = true → ∀ ctx, Closed rules chosen ctx (getB (wfm rules chosen natoms).1)) ∧
+    (∀ ctx M, Closed rules chosen ctx M → ∀ i, getB (wfm rules chosen natoms).1 i = true → M i = true) := by
+  refine ⟨by rw [wfm_definite hdef chosen natoms #[]], fun ctx => by rw [wfm_definite hdef chosen natoms ctx], ?_, ?_⟩
+  · intro hwf ctx
+    rw [wfm_definite hdef chosen natoms ctx]
+    exact C01_gamma_closed rules chosen natoms ctx hwf
+  · intro ctx M hM i hi
+    rw [wfm_definite hdef chosen natoms ctx] at hi
+    exact C01_gamma_least rules chosen natoms ctx M hM i hi
+
+-- non-vacuity: positive cycle `a0 :- a1. a1 :- a0. a1 :- c0. a2 :- a2.`
+example : definite [⟨0, [1], [], none⟩, ⟨1, [0], [], none⟩, ⟨1, [], [], some 0⟩, ⟨2, [2], [], none⟩] = true := by
+  decide
+example : (wfm [⟨0, [1], [], none⟩, ⟨1, [0], [], none⟩, ⟨1, [], [], some 0⟩, ⟨2, [2], [], none⟩] #[true] 3).1.toList
+    = [true, true, false] := by decide
 
 end ProbLogProofs.C01
